@@ -315,6 +315,82 @@ def r5_9(ctx, rc):
     r9_6(ctx, rc)
 
 
+def r5_10(ctx, rc):
+    """The case check of an output's name (``Path.resolve().name`` against
+    the base name) is a Windows matter: ``resolve`` also follows symbolic
+    links, so on other platforms an output that is a link to a differently
+    named file would never pass it and be rebuilt on every build.  Every
+    ``resolve`` in the builder is evaluated only under the platform flag."""
+    prog = ctx.prog
+    R = ctx.R
+    n = 0
+    for F in prog.funcs.values():
+        if F.cls != R.builder:
+            continue
+        for call in prog.calls_in(F):
+            f = call.func
+            if not (isinstance(f, ast.Attribute) and f.attr in (
+                    'resolve', 'realpath')):
+                continue
+            n += 1
+            sg = ctx.E.super(F, lambda g: False)
+            site = [x for x in sg.nodes if x.kind == 'leaf' and
+                    x.call is call]
+            key = 'platform guard of %s in %s' % (f.attr, F.qualname)
+            ok = False
+            if site:
+                for pol, atom, f_, c_ in Q.control_facts(sg, site[0].id):
+                    a = ctx.H.subst(atom, f_, c_)
+                    if pol == 'T' and (
+                            isinstance(a, ast.Attribute) and
+                            a.attr == '_IS_WINDOWS' or
+                            isinstance(a, ast.Name) and
+                            a.id == '_IS_WINDOWS'):
+                        ok = True
+                    if isinstance(a, ast.Compare) and len(a.ops) == 1 and \
+                            'os.name' in ast.unparse(a) and (
+                                (isinstance(a.ops[0], ast.Eq) and
+                                 pol == 'T') or
+                                (isinstance(a.ops[0], ast.NotEq) and
+                                 pol == 'F')):
+                        ok = True
+            if ok:
+                rc.ok({'call': ast.unparse(call)[:40], 'only_on': 'Windows'},
+                      key=key)
+            else:
+                rc.violation(
+                    'case-check-unguarded | ' + F.qualname,
+                    '%s resolves the path (following symbolic links) '
+                    'without being limited to the case-insensitive '
+                    'platform: an output that is a symbolic link to a file '
+                    'of another name never matches and is rebuilt on every '
+                    'build' % F.qualname, prog.loc(F, call), key=key)
+    if n == 0:
+        rc.ok({'resolve_calls': 0}, key='no path resolution in the builder')
+    # the flag itself says "Windows"
+    v = None
+    for c in prog.mro(R.builder):
+        v = v or prog.classes[c].class_attrs.get('_IS_WINDOWS')
+    if v is None:
+        for mod, globs in prog.module_globals.items():
+            v = v or globs.get('_IS_WINDOWS')
+    if v is not None:
+        txt = ast.unparse(v)
+        good = isinstance(v, ast.Compare) and len(v.ops) == 1 and \
+            isinstance(v.ops[0], ast.Eq) and any(
+                isinstance(x, ast.Constant) and x.value in (
+                    'nt', 'Windows', 'win32') for x in ast.walk(v)) or (
+                isinstance(v, ast.Call) and 'startswith' in txt and
+                "'win" in txt)
+        key = 'the platform flag is true on Windows only'
+        if good:
+            rc.ok({'flag': txt[:40]}, key=key)
+        else:
+            rc.violation('platform-flag | _IS_WINDOWS',
+                         'the platform flag is defined as %s' % txt[:60],
+                         R.builder, key=key)
+
+
 RULES = [
     ('R5.1', 'listings are sorted before they are recorded', r5_1),
     ('R5.2', 'failures are not served at top level; nested ones reusable',
@@ -328,4 +404,6 @@ RULES = [
      r5_8),
     ('R5.9', 'records are complete and in completion order; dirs owned',
      r5_9),
+    ('R5.10', 'the name-case check is limited to the case-insensitive '
+     'platform', r5_10),
 ]
